@@ -211,7 +211,8 @@ class Sustain(Constraint):
     @staticmethod
     def apply(block: MultiCrossBlockRepeat, backend_request: BackendRequest) -> None:
         iffs = []
-        for f in block.design:
+        # Implied factors have no variables; their levels follow from the factors they depend on
+        for f in block.act_design:
             sustain_count = block.sustain_count(f)
             for l in f.levels:
                 varss = block.build_variable_lists((f, cast(Union[SimpleLevel, DerivedLevel], l)), None)
